@@ -26,7 +26,7 @@ func init() {
 				"of every fallible step that precedes it in its function, and every such step's error is checked; addRuleList keeps " +
 				"the previous list on each error edge. R4: the index conversion skips invalid entries and keeps converting the rest.",
 			NotCovered: "behaviour of the HTTP client under each fault kind; atomicity of renameio itself (trusted); disk-full and fsync semantics.",
-			Rules: map[string]string{"C13-R17": "RefreshInitial accepts stale copies on disk (true), the periodic Refresh does not (false), for the storage and the hash-prefix filters", "C13-R16": "a consumer that can reject downloaded text does so before the text replaces the cache file (otherwise the rejected file is what the next start loads)", "C13-R15": "loadIndex (rule lists and blocked services): any load or decoding error rejects the whole index", "C13-R14": "builder wiring of the hash-prefix filters: own ID, cache file, storage and URL each (shared with C11-R11)", "C13-RC": "class rules (error chains, shadowed results, character classes, crossed arguments, pool constructors, array pools, loop completeness, loop-carried buffers, replacing setters, complete clones, Grow arithmetic, pooled-buffer escape, sorted searches, fresh decode targets, per-iteration objects, whole-message copies, codec guards) over the packages this property rests on", "C13-R13": "loadIndex only sorts the decoded entries; none is removed before validation", "C13-R12": "in-place list refresh: engine swap and cache clear under one write lock; same-typed arguments (acceptStale vs cache switches) are not crossed", "C13-R11": "the periodic refresh worker: the loop ends only on shutdown, refreshes on every uninterrupted tick, survives a failed refresh; shutdown refresh exactly when configured; constructor field map", "C13-R9": "an index key is converted to filter.ID only where the same field is validated by filter.NewID in the package", "C13-R10": "components with RefreshInitial are started through it in package cmd, never through their periodic Refresh", "C13-R1": "download / replace protocol tables", "C13-R2": "who may mutate files",
+			Rules: map[string]string{"C13-R18": "the fixed cache-file names of the indexes, the safe-search and the hash-prefix lists are refused as rule-list keys by the index validation (all copies share one directory)", "C13-R17": "RefreshInitial accepts stale copies on disk (true), the periodic Refresh does not (false), for the storage and the hash-prefix filters", "C13-R16": "a consumer that can reject downloaded text does so before the text replaces the cache file (otherwise the rejected file is what the next start loads)", "C13-R15": "loadIndex (rule lists and blocked services): any load or decoding error rejects the whole index", "C13-R14": "builder wiring of the hash-prefix filters: own ID, cache file, storage and URL each (shared with C11-R11)", "C13-RC": "class rules (error chains, shadowed results, character classes, crossed arguments, pool constructors, array pools, loop completeness, loop-carried buffers, replacing setters, complete clones, Grow arithmetic, pooled-buffer escape, sorted searches, fresh decode targets, per-iteration objects, whole-message copies, codec guards) over the packages this property rests on", "C13-R13": "loadIndex only sorts the decoded entries; none is removed before validation", "C13-R12": "in-place list refresh: engine swap and cache clear under one write lock; same-typed arguments (acceptStale vs cache switches) are not crossed", "C13-R11": "the periodic refresh worker: the loop ends only on shutdown, refreshes on every uninterrupted tick, survives a failed refresh; shutdown refresh exactly when configured; constructor field map", "C13-R9": "an index key is converted to filter.ID only where the same field is validated by filter.NewID in the package", "C13-R10": "components with RefreshInitial are started through it in package cmd, never through their periodic Refresh", "C13-R1": "download / replace protocol tables", "C13-R2": "who may mutate files",
 				"C13-R3": "commit only after success", "C13-R4": "invalid index entries skipped, not aborting",
 				"C13-R7": "exact HTTP status check; only the size-limited reader that fails at the limit is used on a list's path",
 				"C13-R6": "blocked-service index: any invalid entry rejects the whole update",
@@ -244,6 +244,7 @@ func runC13(c *an.Ctx) {
 	c13IndexDecode(c)
 	c.Floor("C13-R16", 4)
 	c13AcceptedBeforeCommit(c)
+	c13CacheNames(c, "C13-R18")
 	if n := c13StaleFlags(c, "C13-R17"); n < 4 {
 		c.Und("C13-R17", "stale-copy flags of the refreshes", token.NoPos, "only %d refresh calls with a constant acceptStale found (expected the storage and the hash-prefix filters, start-up and periodic)", n)
 	}
@@ -1340,4 +1341,128 @@ func c13StaleFlags(c *an.Ctx, rule string) (examined int) {
 		}
 	}
 	return examined
+}
+
+// c13CacheNames: the rule lists named by the index, the two indexes, the
+// safe-search lists and the hash-prefix lists keep their copies in one
+// directory, each under a name of its own; a rule-list key from the index is
+// turned into a file name as it is.  The fixed names (every constant that
+// reaches the name operand of a filepath.Join whose result becomes a CachePath)
+// must therefore be refused as rule-list keys by the index validation: a key
+// equal to one of them makes a rule list and another component overwrite each
+// other's copy.  The names refused are the string constants the validation of
+// the index key (the functions that hand the key to filter.NewID, and their
+// callees in the package) compares it with.
+func c13CacheNames(c *an.Ctx, rule string) {
+	const key = "rule-list keys cannot name another component's cache file"
+	fixed := map[string]string{}
+	dynamic := 0
+	for _, fn := range c.AllFns {
+		if fn.Blocks == nil || c.IsTestFile(fn.Pos()) || !c.Prog.InRepo(fn) {
+			continue
+		}
+		k := an.FnKey(fn)
+		if !strings.HasPrefix(k, "cmd.") && !strings.HasPrefix(k, "filter/") {
+			continue
+		}
+		an.Instrs(fn, func(in ssa.Instruction) {
+			st, ok := in.(*ssa.Store)
+			if !ok {
+				return
+			}
+			if _, f, _, ok := an.FieldOf(st.Addr); !ok || f != "CachePath" {
+				return
+			}
+			join, ok := st.Val.(*ssa.Call)
+			if !ok || an.CalleeName(join) != "path/filepath.Join" {
+				return
+			}
+			w := &an.Walker{P: c.Prog,
+				Visit: func(v ssa.Value) bool {
+					if k, ok := v.(*ssa.Const); ok && k.Value != nil && k.Value.Kind() == constant.String {
+						if s := constant.StringVal(k.Value); s != "" {
+							fixed[s] = c.Pos(st.Pos())
+						}
+						return true
+					}
+					if ld, ok := v.(*ssa.UnOp); ok && ld.Op == token.MUL {
+						if typ, f, _, ok := an.FieldOf(ld.X); ok && strings.HasSuffix(typ, "filterstorage.indexData") && f == "id" {
+							dynamic++
+							return true
+						}
+					}
+					return false
+				}}
+			// the name operands: everything but the directory
+			if sl, ok := join.Call.Args[0].(*ssa.Slice); ok {
+				if al, ok := sl.X.(*ssa.Alloc); ok && al.Referrers() != nil {
+					for _, r := range *al.Referrers() {
+						if ia, ok := r.(*ssa.IndexAddr); ok {
+							if i, ok := an.ConstInt(ia.Index); ok && i > 0 {
+								for _, s := range an.Stores(ia) {
+									w.Walk(s.Val)
+								}
+							}
+						}
+					}
+				}
+			}
+		})
+	}
+	if len(fixed) < 5 || dynamic == 0 {
+		c.Und(rule, key, token.NoPos, "found %d fixed cache-file names and %d uses of an index key as a file name (expected the two indexes, two safe-search lists, three hash-prefix lists, and addRuleList)", len(fixed), dynamic)
+		return
+	}
+	// what the validation of the key refuses
+	refused := map[string]bool{}
+	var validators []*ssa.Function
+	for _, fn := range c.Prog.FnsMatching("filter/filterstorage.") {
+		if fn.Blocks == nil || c.IsTestFile(fn.Pos()) {
+			continue
+		}
+		for _, call := range an.Calls(fn) {
+			if n := an.CalleeName(call); strings.HasSuffix(n, "filter/internal.NewID") || strings.HasSuffix(n, "filter.NewID") {
+				validators = append(validators, fn)
+			}
+		}
+	}
+	seen := map[*ssa.Function]bool{}
+	var collect func(fn *ssa.Function, d int)
+	collect = func(fn *ssa.Function, d int) {
+		if fn == nil || fn.Blocks == nil || seen[fn] || d > 2 {
+			return
+		}
+		seen[fn] = true
+		c.Analysed(an.FnKey(fn))
+		an.Instrs(fn, func(in ssa.Instruction) {
+			switch x := in.(type) {
+			case *ssa.BinOp:
+				if x.Op != token.EQL && x.Op != token.NEQ {
+					return
+				}
+				for _, op := range []ssa.Value{x.X, x.Y} {
+					if k, ok := an.Unwrap(op).(*ssa.Const); ok && k.Value != nil && k.Value.Kind() == constant.String {
+						refused[constant.StringVal(k.Value)] = true
+					}
+				}
+			case *ssa.Call:
+				if callee := an.StaticCallee(x); callee != nil && strings.HasPrefix(an.FnKey(callee), "filter/filterstorage.") {
+					collect(callee, d+1)
+				}
+			}
+		})
+	}
+	for _, v := range validators {
+		collect(v, 0)
+	}
+	var missing []string
+	for name, where := range fixed {
+		if !refused[name] {
+			missing = append(missing, fmt.Sprintf("%q (cache file made at %s)", name, where))
+		}
+	}
+	sort.Strings(missing)
+	c.Check(len(missing) == 0 && len(validators) > 0, rule, key, token.NoPos,
+		fmt.Sprintf("%d fixed cache-file names, each refused as a rule-list key by the index validation", len(fixed)),
+		"the index validation accepts as rule-list keys the names "+strings.Join(missing, ", ")+": a rule list with such a key and the component that owns the name overwrite each other's copy on disk, and the next start loads the wrong content")
 }
